@@ -106,7 +106,7 @@ type facts struct {
 func compute(ic, sc *fg.Parsed) (*facts, error) {
 	w := newWorld(ic, sc)
 	need := append(append(append([]string{}, mutators...), queries...), handlers...)
-	need = append(need, "createFloatingIP", "updateFloatingIP", "deleteFloatingIP", "listFloatingIPs")
+	need = append(need, "createFloatingIP", "updateFloatingIP", "deleteFloatingIP", "listFloatingIPs", "walkConfiguredIPRanges")
 	for _, m := range need {
 		if w.fn(m) == nil {
 			return nil, fmt.Errorf("method crdIpam.%s not found", m)
@@ -151,6 +151,20 @@ func compute(ic, sc *fg.Parsed) (*facts, error) {
 	f.bools["handlersMakeNoStoreCall"] = noStore
 	f.bools["createReturnsCreateError"] = w.fn("createFloatingIP").createReturnsCreateError()
 	f.bools["updateIsGetThenUpdate"] = w.fn("updateFloatingIP").getAssignUpdate()
+	wc := w.fn("walkConfiguredIPRanges").walkConfFacts()
+	f.bools["walkConfClampsBothEnds"] = wc.clampsBoth
+	f.bools["walkConfSortsParts"] = wc.sorts
+	f.bools["walkConfDelegatesToWalk"] = wc.delegates
+	f.bools["reloadListsApiserver"] = w.fn("listFloatingIPs").listsApiserver()
+	usesWalkConf := true
+	for _, m := range []string{"AllocateInSubnetsAndIPRange", "ByKeyAndIPRanges", "NodeSubnetsByIPRanges"} {
+		fd := w.decl[m]
+		src := w.file[m].Src(fd.Body)
+		if !strings.Contains(src, ".walkConfiguredIPRanges(") || strings.Contains(strings.ReplaceAll(src, ".walkConfiguredIPRanges(", ""), "walkIPRanges(") {
+			usesWalkConf = false
+		}
+	}
+	f.bools["requestsWalkConfigured"] = usesWalkConf
 	return f, nil
 }
 
@@ -167,6 +181,11 @@ var boolOrder = []struct{ name, why string }{
 	{"handlersMakeNoStoreCall", "handleFIPAssign / handleFIPUnassign only touch the caches"},
 	{"createReturnsCreateError", "createFloatingIP returns the error of the Create call unconditionally: an existing object is never fetched or taken over"},
 	{"updateIsGetThenUpdate", "updateFloatingIP = Get, assign, Update (two store calls, labels kept)"},
+	{"walkConfClampsBothEnds", "walkConfiguredIPRanges clips EVERY configured range against the requested range at both ends and drops empty parts"},
+	{"walkConfSortsParts", "walkConfiguredIPRanges sorts the parts ascending by first address (sort.Slice on IPToInt(First)) before walking them"},
+	{"walkConfDelegatesToWalk", "walkConfiguredIPRanges hands the parts to walkIPRanges, forwards the callback's verdict and stops when it stopped"},
+	{"requestsWalkConfigured", "AllocateInSubnetsAndIPRange, ByKeyAndIPRanges and NodeSubnetsByIPRanges walk requested ranges through walkConfiguredIPRanges only"},
+	{"reloadListsApiserver", "listFloatingIPs (ConfigurePool's view of the store) is a LIST against the API server, not an informer cache"},
 }
 
 func genFrom(ic, sc *fg.Parsed) (string, error) {
